@@ -2314,4 +2314,8 @@ M("t16-recursion-reported-late", "C17", "fire T16", "src/check.rs",
         }""",
   """        errors.extend(recursive_type_defs);""", "self-containing types are only reported at the end: the function bodies are checked first (does not terminate)")
 REVERT("revert-type-definition-checks-c07", "C07", "fire F13", "e5f9d9e", "pre-fix tree: `struct S { a: S }` overflows the stack in compile")
+REVERT("revert-zero-sized-arithmetic", "C05", "fire S15", "37a902e", "pre-fix tree: division by an element width, `a + b - 1` on array lengths")
+M("s15-quiet-checked-sub", "C05", "quiet", "src/compile.rs",
+  """    let mut joined = Vec::with_capacity((num_elems_a + num_elems_b).saturating_sub(1));""",
+  """    let mut joined = Vec::with_capacity((num_elems_a + num_elems_b).checked_sub(1).unwrap_or(0));""", "behaviour-preserving: checked_sub instead of saturating_sub")
 
